@@ -1,5 +1,180 @@
-import Banyan.Model.Util
-open Banyan
+import Banyan.Model.C18
+open Banyan Banyan.C18
 
-/- stub: model driver for C18 not built yet -/
-def main : IO Unit := runDriver fun _ => "bad-op"
+/-! Line protocol: see hooks/banyand/internal/verifdrv/c18/main.go -/
+
+def b01 (b : Bool) : String := if b then "1" else "0"
+
+def insertBy {α : Type} (lt : α → α → Bool) (x : α) : List α → List α
+  | [] => [x]
+  | y :: ys => if lt x y then x :: y :: ys else y :: insertBy lt x ys
+
+def sortBy {α : Type} (lt : α → α → Bool) (l : List α) : List α := l.foldl (fun acc x => insertBy lt x acc) []
+
+def dedupStr (l : List String) : List String := l.foldl (fun acc x => if acc.contains x then acc else acc ++ [x]) []
+
+def showTags (t : Tags) : String :=
+  if t.isEmpty then "-" else ",".intercalate (t.map fun (k, v) => k ++ ":" ++ v)
+
+def parseTags (s : String) : Tags :=
+  if s == "-" then [] else
+  (s.splitOn ",").filterMap fun kv =>
+    match kv.splitOn ":" with
+    | k :: rest => some (k, ":".intercalate rest)
+    | _ => none
+
+def dl (d : Nat) : String := if d > 0 then "D" else "L"
+
+def showDoc (d : Doc) : String := s!"{d.rev}/{dl d.del}/{d.created}/{showTags d.tags}"
+
+def showState (c : Cluster) (keys : List String) : String :=
+  let ks := sortBy (fun a b => a < b) keys
+  let rec go (reps : List Shard) (i : Nat) : List String :=
+    match reps with
+    | [] => []
+    | s :: rest =>
+      let parts := ks.map fun k =>
+        let docs := sortBy (fun a b => a.rev < b.rev) (docsOf s k)
+        k ++ "=" ++ (if docs.isEmpty then "-" else "+".intercalate (docs.map showDoc))
+      (s!"S{i}:" ++ ";".intercalate parts) :: go rest (i + 1)
+  " ".intercalate (go c.reps 0)
+
+def parseDown (s : String) : Nat → Bool :=
+  if s == "-" then fun _ => true
+  else
+    let ds := s.toList.map fun ch => ch.toNat - 48
+    fun i => !ds.contains i
+
+def showProps (ps : List Doc) (keep : Bool) : String :=
+  let parts := ps.map fun d => s!"{d.key}={d.rev}/{d.created}/{showTags d.tags}"
+  let parts := if keep then parts else sortBy (fun a b => a < b) parts
+  if parts.isEmpty then "-" else ";".intercalate parts
+
+def stateEq (a b : Shard) (keys : List String) : Bool := keys.all fun k => top a k == top b k
+
+def leafCount (s : Shard) (keys : List String) : Nat := (keys.filter fun k => (top s k).isSome).length
+
+structure St where
+  c : Cluster
+  keys : List String
+
+def addKey (st : St) (k : String) : St := { st with keys := if st.keys.contains k then st.keys else st.keys ++ [k] }
+
+def runOp (st : St) (f : List String) : St × String :=
+  match f with
+  | [kind, k, strat, tags, ts, down] =>
+    if kind == "A" || kind == "T" then
+      let st := addKey st k
+      match ts.toNat? with
+      | some now =>
+        let (c', r) := applyOp st.c (parseDown down) k (if strat == "R" then .replace else .merge) (parseTags tags) now
+        ({ st with c := c' }, match r with
+          | .err => kind ++ ":ERR"
+          | .ok cr n => s!"{kind}:c{b01 cr},n{n}")
+      | none => (st, "bad-op")
+    else (st, "bad-op")
+  | ["D", k, down] =>
+    let st := addKey st k
+    let (c', r) := deleteOp st.c (parseDown down) k
+    ({ st with c := c' }, match r with
+      | .err => "D:ERR"
+      | .ok d => "D:" ++ b01 d)
+  | ["Q", down, rr] =>
+    if st.keys.isEmpty then (st, "Q:-,rq0") else
+    let (c', r) := queryOp st.c (parseDown down) st.keys (rr == "1")
+    ({ st with c := c' }, s!"Q:{showProps r.props false},rq{r.tasks}")
+  | ["O", tag, dir, down] =>
+    if st.keys.isEmpty then (st, "O:-,rq0") else
+    let (c', r) := queryOrderedOp st.c (parseDown down) st.keys tag (dir == "d")
+    ({ st with c := c' }, s!"O:{showProps r.props true},rq{r.tasks}")
+  | ["R", src, dst, k] =>
+    let st := addKey st k
+    match src.toNat?, dst.toNat? with
+    | some s, some d =>
+      let (c', r) := repairFrom st.c s d k
+      ({ st with c := c' }, match r with
+        | none => "R:-"
+        | some (u, none) => "R:u" ++ b01 u
+        | some (u, some n) => s!"R:u{b01 u},n{n.rev}{dl n.del}")
+    | _, _ => (st, "bad-op")
+  | ["G", cl, sv, k] =>
+    let st := addKey st k
+    match cl.toNat?, sv.toNat? with
+    | some a, some b =>
+      let (c', tr) := gossipOp st.c a b k
+      ({ st with c := c' }, "G:" ++ tr)
+    | _, _ => (st, "bad-op")
+  | ["E"] => (st, "E:")
+  | ["F"] => (st, "F:")
+  | ["M", a, b] =>
+    match a.toNat?, b.toNat? with
+    | some i, some j =>
+      match st.c.reps[i]?, st.c.reps[j]? with
+      | some x, some y =>
+        let e := stateEq x y st.keys
+        (st, s!"M:root{b01 e},state{b01 e},leaves{leafCount x st.keys}/{leafCount y st.keys}")
+      | _, _ => (st, "bad-op")
+    | _, _ => (st, "bad-op")
+  | _ => (st, "bad-op")
+
+def splitOps (toks : List String) : List (List String) :=
+  let rec go (toks : List String) (cur : List String) (acc : List (List String)) : List (List String) :=
+    match toks with
+    | [] => if cur.isEmpty then acc else acc ++ [cur]
+    | t :: rest => if t == "|" then go rest [] (if cur.isEmpty then acc else acc ++ [cur]) else go rest (cur ++ [t]) acc
+  go toks [] []
+
+def history (n : Nat) (toks : List String) : String :=
+  let st0 : St := { c := { reps := List.replicate n [], clk := 1 }, keys := [] }
+  let (_, outs) := (splitOps toks).foldl (fun (acc : St × List String) op =>
+    let (st', r) := runOp acc.1 op
+    (st', acc.2 ++ [r ++ " ~ " ++ showState st'.c st'.keys])) (st0, [])
+  if outs.isEmpty then "-" else " | ".intercalate outs
+
+/-! DD lines -/
+
+def parseItems (tok : String) : Option (List (Nat × Doc × Option String)) :=
+  match tok.splitOn ":" with
+  | [node, items] =>
+    match (node.drop 1).toNat? with
+    | none => none
+    | some n =>
+      if items == "" then some [] else
+      (items.splitOn ";").mapM fun it =>
+        match it.splitOn "," with
+        | [k, rev, del, sv] =>
+          match rev.toNat?, del.toNat? with
+          | some r, some d => some (n, { key := k, rev := r, created := 0, tags := [], del := d }, some sv)
+          | _, _ => none
+        | _ => none
+  | _ => none
+
+def showWinners (ws : List Entry) (keep : Bool) : String :=
+  let parts := ws.map fun e =>
+    let ns := sortBy (fun a b => a < b) e.nodes
+    s!"{e.doc.key},{e.doc.rev},{dl e.doc.del}," ++ "+".intercalate (ns.map fun n => s!"n{n}")
+  let parts := if keep then parts else sortBy (fun a b => a < b) parts
+  if parts.isEmpty then "-" else ";".intercalate parts
+
+def dedupLine (dir : String) (toks : List String) : String :=
+  match toks.mapM parseItems with
+  | none => "bad-op"
+  | some lists =>
+    let items := lists.flatten
+    let desc := dir == "d"
+    let simple := simpleDedup (items.map fun (n, d, _) => (n, d))
+    let sorted := sortedDedup desc (arrival desc items)
+    s!"simple={showWinners simple false} sorted={showWinners sorted true}"
+
+def handle (line : String) : String :=
+  match words line with
+  | "DD" :: dir :: rest => dedupLine dir rest
+  | h :: n :: rest =>
+    if h.startsWith "H" then
+      match n.toNat? with
+      | some k => if k ≥ 1 && k ≤ 3 then history k rest else "bad-op"
+      | none => "bad-op"
+    else "bad-op"
+  | _ => "bad-op"
+
+def main : IO Unit := runDriver handle
